@@ -992,7 +992,7 @@ def own_oracles(ctx, case, obs):
                     ctx.violation('outside_table_accepted', f'{imp} {snap[key]} outside [{lo},{hi}] yet the request is feasible', pub)
 
 
-def judged(case, obs, model):
+def judged(case, obs, model, observed=False):
     """False when a metric on the decision path equals its threshold (or is a rounding tie): not judged"""
     modes = case['modes_final']
     margin = obs['margin']
@@ -1008,10 +1008,19 @@ def judged(case, obs, model):
     if 'exc' in model or case.get('nosnr'):
         return True
     fresh = {(br, off): fr for br, off, fr in obs['fresh']}
+    seen = {}
+    if observed:
+        # the model was fed with the figures observed inside the loop: ties are judged on those
+        for e in obs['evals']:
+            if e['dir'] == 'fwd':
+                seen[(obs['iters'][e['it']][0], obs['iters'][e['it']][1], e['mode'])] = e['snap']
     for (br, off, k) in model['order']:
         fr = fresh[(br, off)]
         raw = metric_py(rx_g01(fr['raw01'], obs['contrib'], modes[k]['tx_osnr']), pen_py(lib[k]['penalties'], fr))
         if tie(raw, modes[k]['OSNR'] + margin):
+            return False
+        sn = seen.get((br, off, k))
+        if sn is not None and tie(np_metric(sn)[1], modes[k]['OSNR'] + margin):
             return False
         if model.get('kind') == 'S' and [br, off] == model['it'] and k == model['mode']:
             break
@@ -1034,7 +1043,7 @@ def is_f6(v):
             and d.get('first_iteration') is False)
 
 
-def is_f15(v):
+def is_sibling_offset(v):
     """propagate_and_optimize_mode evaluates every mode of a baud rate on the propagation of every offset of that baud
     rate: the selected mode was judged on a sibling's offset (same baud rate, other offset) and fails with its own."""
     d = v.get('detail') or {}
@@ -1043,7 +1052,7 @@ def is_f15(v):
             and d['metric_foreign'] > d['threshold'] >= d['metric_own'])
 
 
-MATCHERS = {'F6-mode-loop-clamp-persists': is_f6, 'F15-mode-judged-on-sibling-offset': is_f15}
+MATCHERS = {'F6-mode-loop-clamp-persists': is_f6, 'C13-mode-judged-on-sibling-offset': is_sibling_offset}
 
 
 # ------------------------------------------------------------------ run
@@ -1149,7 +1158,7 @@ def run(ctx):
         else:
             obs, lk = extra
             model = parse_model(c, line)
-            if not judged(c, obs, model):
+            if not judged(c, obs, model, observed=bool(lk)):
                 ctx.count('unjudged_threshold_equal')
                 continue
             ctx.count('judged_decisions')
